@@ -1,6 +1,7 @@
 package main
 
 import (
+	"bytes"
 	"context"
 	"fmt"
 	"os"
@@ -382,6 +383,48 @@ func placeExec(c *Ctx, op string) {
 			pls = append(pls, pl{dst: d, jan: jan, kind: x[1], mounted: true})
 			c.H("op:p:" + x[1])
 			checkShelf("after placement by " + x[1])
+		case "pp":
+			// place by copy, write inside the placed tree (leaving the destination's own stat as it was), place the same shelf
+			// by copy at the same destination again — no teardown in between: the second placement is faithful again
+			if shelfRef == "" {
+				tartrans.Unpack(ctx, id, "-", uf, rio.Placement_None, wh, rio.Monitor{})
+				checkShelf("init")
+			}
+			d := newDst("absent")
+			if _, e := placer.CopyPlacer(fs.MustAbsolutePath(shelf), fs.MustAbsolutePath(d), true); e != nil {
+				continue
+			}
+			var rootSt syscall.Stat_t
+			syscall.Lstat(d, &rootSt)
+			if sn, e := Snapshot(d); e == nil {
+				for _, en := range sn {
+					pth := filepath.Join(d, en.Name)
+					switch {
+					case en.Kind == 'f' && en.Name != "":
+						os.WriteFile(pth, append([]byte("scribbled:"), en.Content...), 0600)
+						syscall.Chmod(pth, 0600)
+					case en.Kind == 'f': // a plain-file ware: same size, same mtime, other bytes
+						b := bytes.Repeat([]byte("S"), len(en.Content))
+						if fh, e := os.OpenFile(pth, os.O_WRONLY, 0); e == nil {
+							fh.Write(b)
+							fh.Close()
+						}
+					case en.Kind == 'd' && en.Name != "":
+						os.WriteFile(filepath.Join(pth, "left-by-user"), []byte("u"), 0644)
+					}
+				}
+			}
+			ts := []syscall.Timespec{{Sec: rootSt.Atim.Sec, Nsec: rootSt.Atim.Nsec}, {Sec: rootSt.Mtim.Sec, Nsec: rootSt.Mtim.Nsec}}
+			syscall.UtimesNano(d, ts)
+			jan2, e := placer.CopyPlacer(fs.MustAbsolutePath(shelf), fs.MustAbsolutePath(d), true)
+			if e != nil {
+				c.PropFail("placement-failed", "a second copy placement at a destination an earlier one sits at failed: "+e.Error(), op)
+				continue
+			}
+			checkDst(d, "a second copy placement over an earlier one that was written into", true)
+			pls = append(pls, pl{dst: d, jan: jan2, kind: "copy", mounted: true})
+			c.H("op:pp")
+			checkShelf("after a second copy placement at the same destination")
 		case "w":
 			var i int
 			fmt.Sscan(x[1], &i)
@@ -768,6 +811,7 @@ func placeEngine(c *Ctx) {
 		}
 		// fixed prefix: the route x pre-state combinations that matter most, then the writable-mount life cycle
 		ops = append(ops, "u:copy:foreign", "u:copy:junk", "u:direct:absent", "u:none:absent")
+		ops = append(ops, "pp")
 		if k%5 != 4 {
 			ops = append(ops, "u:mount:junk", "u:mount:symlink", "u:copy:symlink")
 		}
